@@ -136,6 +136,9 @@ func backendProp(b backendSpec, meaning string) propFunc {
 			r.floor("guard.agree", 3)
 		}
 		if b.Name == "hlsl" {
+			r.Clauses = append(r.Clauses, "array declarations (E55): a declaration (type text, blank, declared name) of a module-scope variable, local variable, constant, struct member or function result takes its type text from the function that splits off the array suffix and prints that suffix after the name - never the whole text `T[N]` before the name")
+			c.runDeclArraySuffix(r, "decl.arraysuffix", "hlsl/internal/codegen", nil)
+			r.floor("decl.splitSuffixSites", 12)
 			r.Clauses = append(r.Clauses, "column stride (E25): the byte stride used to address a matrix column in a buffer is the alignment factor of a vector with Rows components (never Columns)")
 			c.runColStride(r, "layout.colstride", inPkgs("hlsl"))
 			r.floor("layout.colstride", 3)
@@ -154,6 +157,9 @@ func backendProp(b backendSpec, meaning string) propFunc {
 			r.floor("bitscan.width", 2)
 		}
 		if b.Name == "glsl" || b.Name == "msl" {
+			r.Clauses = append(r.Clauses, "vector select (E56): the writer of ir.ExprSelect that spells the ?: operator first branches (with an early return) on something computed from the condition operand other than its text - in GLSL and MSL ?: takes a scalar bool only")
+			c.runSelectCondShape(r, "select.condshape", inPkgs(b.Name))
+			r.floor("select.condshape", 1)
 			r.Clauses = append(r.Clauses, depthLikeClause)
 			c.runDepthLike(r, "image.depthlike", inPkgs(b.Name))
 			r.floor("image.depthlike", 1)
